@@ -16,3 +16,12 @@ HARNESSES.append(Harness('builder', 'h_capture_validated', unwind=17, mem_gb=8, 
 EXPLANATION = 'bounded symbolic execution of the real BaseBuilder capture and serialize_to replay against a recording emitter'
 OUTSIDE = ['byte equality for whole programs (follows from capture/replay identity plus determinism of the assembler back end; not re-proved)', 'Compiler-specific nodes (func/invoke)']
 ASSUMPTIONS = ['the instruction validator is a stub with a nondeterministic verdict in h_capture_validated (the real validator is C13/C14); failure path without text formatting', 'extension operands (4th..6th) are passed densely, as the typed emit() overloads do', 'Arena replaced by the malloc-backed stub include/arena_stub.h (one malloc per request; the arena itself is C18)', 'destination emitter is a recording model that clears the one-shot state as real emitters do']
+
+# ---- second unit (typed data nodes, const-pool capture, label lookup, section links), added after the second round of seeded changes
+import re as _re, os as _os
+UNITS.append(Unit('builder2', harness=['h_builder2.cpp'], repo_units=CORE + ['asmjit/core/constpool.cpp', 'asmjit/support/arenavector.cpp']))
+_B2 = {'h_data': 'embed_data_array of 2..5 items of the type in the harness name (item bytes symbolic, repeat count a constant per harness) captured by the real Builder (node fields and bytes)',
+       'h_const_pool': 'embed_const_pool of an empty pool with alignment 1/2/4/8 and any 32-bit label id on a holder with two labels', 'h_bind': 'bind() of any 32-bit label id on a holder with one or two labels',
+       'h_section': 'list of 1..3 section nodes separated by label nodes with arbitrary stale _next_section links, then update_section_links()'}
+for _fn in _re.findall(r'^HARNESS (h_\w+)\(\)', open(_os.path.join(_os.path.dirname(_os.path.abspath(__file__)), 'h_builder2.cpp')).read(), _re.M):
+    HARNESSES.append(Harness('builder2', _fn, unwind=42, mem_gb=4, timeout=600, bounds=[v for k, v in _B2.items() if _fn.startswith(k)][0]))
